@@ -191,6 +191,11 @@ ReaderCalls ==
   \cup { <<"rfsrf32", i, 0, 10>> : i \in {1, 3, 200} }
   \cup { <<"rstats", i, 0, 10, 2>> : i \in Ids }
   \cup { <<"rstats", 1, s, k, n>> : s \in {0, 99, -1}, k \in {0, 1, 50, 2147483647}, n \in {0, 1, 3, 100000} }
+  \* windows that end exactly at, and one sample past, the end of a signal of 100 / 200 samples
+  \cup { <<"rstats", 1, 100, 1, 1>>, <<"rstats", 1, 0, 101, 1>>, <<"rstats", 1, 0, 1, 101>>, <<"rstats", 1, 50, 51, 1>>,
+         <<"rstats", 1, 1, 50, 2>>, <<"rstats", 1, 99, 1, 2>>, <<"rstats", 1, 0, 100, 1>>, <<"rstats", 1, 0, 50, 2>>,
+         <<"rstats", 1, 0, 1, 100>>, <<"rstats", 1, 0, 201, 1>>, <<"rstats", 1, 0, 67, 3>>, <<"rstats", 1, 199, 1, 2>>,
+         <<"rfsr", 1, 50, 51>>, <<"rfsr", 1, 199, 2>>, <<"rfsr", 1, 0, 201>> }
   \cup { <<"rannos", i, 0>> : i \in Ids }
   \cup { <<"rutc", i, 0>> : i \in Ids }
   \cup { <<"ri2t", i, 10>> : i \in {1, 2, 200, 65535} }
